@@ -11,6 +11,7 @@ import GoBk.Model.Ecies
 import GoBk.Model.Envelope
 import Driver.FieldOps
 import Driver.MemOps
+import Driver.ImplOps
 /-
   Line-protocol driver: one operation per input line, one result per output line.
   See DESIGN.md (Appendix B) for the op names.  Core Lean only (links as an executable).
@@ -29,9 +30,16 @@ def unint (s : String) : Option Int :=
   if s.startsWith "-" && s != "-" then (unnat (s.drop 1).toString).map fun n => - (n : Int)
   else (unnat s).map fun n => (n : Int)
 
+/-- a tape is a comma list of reads (`!` = failed read); a leading `~k` element only records that the
+harness's reader served at most k bytes per `Read` call (short reads) — the logical reads are the same -/
 def untape (s : String) : Option Rng.Tape :=
   if s == "-" then some []
-  else (s.splitOn ",").mapM fun r => if r == "!" then some none else (unhex r).map some
+  else
+    let parts := s.splitOn ","
+    let parts := match parts with
+      | p :: rest => if p.startsWith "~" then rest else p :: rest
+      | [] => []
+    parts.mapM fun r => if r == "!" then some none else (unhex r).map some
 
 def ptStr (p : Pt) : String := nhx p.1 ++ " " ++ nhx p.2
 def b2s (b : Bool) : String := if b then "1" else "0"
@@ -261,7 +269,7 @@ def runOp (op : String) (a : List String) : Option String :=
   | "rng.entropy", [n, t] => do
     let n ← n.toNat?; let t ← untape t
     pure (match Rng.generateEntropy n t with | some (b, _) => "ok " ++ hx b | none => "err")
-  | op, args => (Driver.runFieldOp op args).orElse fun _ => Driver.runMemOp op args
+  | op, args => ((Driver.runFieldOp op args).orElse fun _ => Driver.runMemOp op args).orElse fun _ => Driver.runImplOp op args
 
 partial def loop (hin hout : IO.FS.Stream) (c : Cache) : IO Unit := do
   let line ← hin.getLine
